@@ -61,10 +61,14 @@ C04(E, S, line) ==
         /\ X.widx \in 1..NWords(RecOfS(S, X.rid).tok)
         /\ LET w == RWord(S, X.rid, X.widx) IN
            /\ Len(w) >= 5 /\ AllAlpha(w) /\ Distinct(w) >= 3
-           /\ NWords(E.qtok) = 1 /\ ~E.qtok.words[1].fin
-           /\ E.qtok.chars = E.q /\ E.qtok.source = E.q                  \* normalisation leaves the query unchanged
-           /\ LET v == QWord(E, 1) IN
-              /\ Len(v) = Len(E.q) /\ AllAlpha(v)
+           \* the query is one unfinished word that normalisation leaves unchanged - as the SPECIFICATION's tokeniser reads
+           \* what was typed (Tokenize.tla with the tables of Langs.tla), not as the code under test reports it: a change
+           \* that rewrites the query on its way in must not be able to move its own inputs out of the domain
+           /\ LET sq == Tokenize(S.lang, E.q, TRUE) IN
+              /\ Len(sq.words) = 1 /\ ~sq.words[1].fin /\ sq.words[1].s = 0 /\ sq.words[1].e = Len(E.q)
+              /\ sq.chars = E.q /\ sq.source = E.q
+           /\ LET v == E.q IN
+              /\ Len(v) >= 1 /\ AllAlpha(v)
               /\ SeqRange(v) \subseteq (SeqRange(w) \cup Script(S.lang))
               /\ v # w /\ IsOneEdit(w, v),
         InHits(E, X.rid), line, "C04", "a single typo in a long word loses the record")
